@@ -154,8 +154,10 @@ archive_filter_uuencode_open(struct archive_write_filter *f)
 		return (ARCHIVE_FATAL);
 	}
 
-	archive_string_sprintf(&state->encoded_buff, "begin %o %s\n",
-	    (unsigned int)state->mode, state->name.s);
+	/* Always three octal digits: that is what uudecode expects. */
+	archive_string_sprintf(&state->encoded_buff, "begin %c%c%c %s\n",
+	    '0' + ((state->mode >> 6) & 7), '0' + ((state->mode >> 3) & 7),
+	    '0' + (state->mode & 7), state->name.s);
 
 	f->data = state;
 	return (0);
